@@ -119,6 +119,16 @@ class Register:
             ):
                 if alias_slice.stop > alias_from.size:
                     raise JaqalError("Index out of range.")
+                if alias_slice.step is not None and alias_slice.step < 0:
+                    # Counting down, the first element is the largest and the
+                    # last one the smallest.
+                    elements = range(
+                        alias_slice.start or 0, alias_slice.stop, alias_slice.step
+                    )
+                    if len(elements) > 0 and (
+                        elements[0] >= alias_from.size or elements[-1] < 0
+                    ):
+                        raise JaqalError("Index out of range.")
 
     def __hash__(self):
         return hash((self.__class__, self._name, self._size))
